@@ -100,6 +100,16 @@ def check_pred(spec):
     except AttributeError:
         if ok:
             return "check_system_acceptable refused the owner's unplaced, uncancelled order"
+    from pams.order import Cancel
+    c = Cancel(order=o, placed_at=spec.get("cancel_placed_at"))
+    okc = spec["agent"] == 1 and spec.get("cancel_placed_at") is None and not spec["canceled"]
+    try:
+        c.check_system_acceptable(spec["agent"])
+        if not okc:
+            return f"Cancel.check_system_acceptable({spec['agent']}) accepted a cancel (placed_at={spec.get('cancel_placed_at')}) of agent 1's order with is_canceled={spec['canceled']}"
+    except AttributeError:
+        if okc:
+            return "Cancel.check_system_acceptable refused the owner's unplaced cancel of an order not yet cancelled"
     return None
 
 
@@ -109,12 +119,13 @@ def pred_cases():
             for time in range(0, 8):
                 for canceled in (False, True):
                     for agent in (1, 7):
-                        yield {"pred": True, "ttl": ttl, "placed_at": placed_at, "time": time, "canceled": canceled, "agent": agent}
+                        for cpa in (None, 3):
+                            yield {"pred": True, "ttl": ttl, "placed_at": placed_at, "time": time, "canceled": canceled, "agent": agent, "cancel_placed_at": cpa}
 
 
 def search(seed, tier, obligation, hints):
     n = 0
-    if (obligation or "").startswith(("Order.is_expired", "Order.check_system_acceptable")):
+    if (obligation or "").startswith(("Order.is_expired", "Order.check_system_acceptable", "Cancel.check_system_acceptable")):
         for c in pred_cases():
             n += 1
             why = check_pred(c)
